@@ -51,7 +51,8 @@ ASSUMPTIONS = [
     "the torch tool documents that a channel mismatch raises; poison records are therefore injected for the Kaldi "
     "tool only (where they are skipped by design); the torch tool gets too-short and zero-length utterances",
     "dither is excluded from the value oracle (its draw protocol is an implementation detail) and checked for "
-    "run-to-run determinism under a fixed --seed instead",
+    "run-to-run determinism under a fixed --seed instead; the ORDER of a chain containing dither is checked by the "
+    "order probe, which only assumes that the same --seed adds the same noise to an utterance of the same length",
     "post-processors are only combined with utterances long enough to yield >= 3 frames; Standardize output is "
     "compared only where every reference coefficient has variance >= 1e-3",
     "float32 precision: |a-b| <= 1e-4 max(|a|,|b|) + 1e-5 max|ref| (+ 2e-4 absolute for log-domain features)",
@@ -62,7 +63,7 @@ ASSUMPTIONS = [
 PROBES = [
     "torch_tool", "kaldi_tool", "raw_no_computer", "preemphasis", "dither_determinism", "postprocess",
     "multichannel_select", "too_short_utterance", "zero_length_utterance", "yaml_config", "json_file_config",
-    "workers_sim", "si_computer", "include_energy_empty", "kaldi_default_channel0",
+    "workers_sim", "si_computer", "include_energy_empty", "kaldi_default_channel0", "order_probe",
 ]
 FAULT_KINDS = ["poison_min_duration", "poison_rate_mismatch", "poison_channel_range"]
 
@@ -73,6 +74,23 @@ def _min_len_for_frames(cfg, nframes=3):
 
 
 def generate(rng, tier, k):
+    if rng.random() < 0.06:
+        # order probe: with a fixed --seed the dither noise of an utterance can be recovered from a dither-only run
+        # (stored raw, no computer); the full chain must then equal the documented order applied to signal and noise
+        nutt = rng.choice((1, 2, 3))
+        corpus = world.gen_corpus(rng, nutt, allow_multi=False, containers=("npy", "pt", "npz"), short_ok=False)
+        for u in corpus:
+            u["store_dtype"] = "float64"
+        coeff = rng.choice((0.97, 0.5))
+        dith = {"name": "dither", "coeff": rng.choice((1.0, 3.0))}
+        pre = [dith, {"name": "preemphasize", "coeff": coeff}]
+        if rng.random() < 0.5:
+            pre.reverse()
+        return {"tool": "torch", "order_probe": True, "corpus": corpus, "cfg": None, "pre": pre, "post": [],
+                "args": {"seed": rng.randrange(0, 1000)},
+                "runs": [{"syntax": rng.choice(("inline", "json", "yaml")), "ambient": rng.randrange(1 << 20),
+                          "num_workers": rng.choice((0, 0, 2)), "schedule": [rng.randrange(8) for _ in range(6)]}
+                         for _ in range(2)]}
     tool = "torch" if rng.random() < 0.6 else "kaldi"
     nutt = rng.choice((1, 2, 3, 3, 4, 5, 6, 8))
     r = rng.random()
@@ -250,7 +268,60 @@ def execute(scn, keep_trace=False):
     return res
 
 
+def _run_order_probe(scn, d, res, tr):
+    """Run A: dither only. Run B: the full chain. B must equal the chain applied in order to (signal, noise of A)."""
+    res.probe("order_probe")
+    facts = dict(tool="torch", computer=None, post=[], pre=[p["name"] for p in scn["pre"]], order_probe=True)
+    dith = [p for p in scn["pre"] if p["name"] == "dither"]
+    outs = []
+    for ri, (pre, run) in enumerate(zip((dith, scn["pre"]), scn["runs"])):
+        sub = dict(scn, pre=pre)
+        argv = _argv(sub, d, run, "out%d" % ri)
+        knobs = {"ambient_seed": run.get("ambient", ri), "pool": "sim", "num_workers": run.get("num_workers", 0),
+                 "schedule": run.get("schedule", [])}
+        r = child.run_tool("torch", argv, d, None, knobs)
+        tr.log("run", ri, r["exit"])
+        if r["exit"] != 0:
+            res.violate("TOOL_FAILED", "torch tool exited with %s in the order probe" % r["exit"], phase="run", **facts)
+            return
+        stored, _, order = _read_output(sub, d, "out%d" % ri)
+        outs.append(stored)
+    coeff = [p for p in scn["pre"] if p["name"] == "preemphasize"][0]["coeff"]
+    dither_first = scn["pre"][0]["name"] == "dither"
+
+    def preemph(v):
+        y = v.copy()
+        y[1:] -= coeff * v[:-1]
+        return y
+
+    for u in scn["corpus"]:
+        x = world.make_signal(u)[0]
+        a = outs[0].get(u["id"] + ".pt")
+        b = outs[1].get(u["id"] + ".pt")
+        if not isinstance(a, np.ndarray) or not isinstance(b, np.ndarray) or a.shape != (len(x), 1) or b.shape != (len(x), 1):
+            res.violate("CONSERVATION", "order probe: %s stored as %s / %s" % (
+                u["id"], getattr(a, "shape", a), getattr(b, "shape", b)), phase="conservation", **facts)
+            return
+        noise = a[:, 0].astype(np.float64) - x
+        want = preemph(x + noise) if dither_first else preemph(x) + noise
+        other = preemph(x) + noise if dither_first else preemph(x + noise)
+        err = np.abs(b[:, 0].astype(np.float64) - want).max() if len(x) else 0.0
+        tol = 1e-3 * (1.0 + np.abs(x).max() * 1e-3)
+        tr.log("probe", u["id"], float(err) <= tol)
+        if err > tol:
+            err_other = np.abs(b[:, 0].astype(np.float64) - other).max()
+            res.violate("PRE_ORDER", "utterance %s: chain %s stored samples that differ (max %.3g) from the chain applied "
+                        "in order to the signal plus the noise recovered from a dither-only run%s" % (
+                            u["id"], [p["name"] for p in scn["pre"]], err,
+                            " - they match the REVERSED order" if err_other <= tol else ""), phase="values", **facts)
+            return
+    res.signature = "orderprobe/%s/%s" % ("d-p" if dither_first else "p-d", len(scn["corpus"]))
+    res.nontrivial = True
+
+
 def _run(scn, d, res, tr):
+    if scn.get("order_probe"):
+        return _run_order_probe(scn, d, res, tr)
     tool = scn["tool"]
     res.probe(tool + "_tool")
     cfg = scn.get("cfg")
